@@ -3,7 +3,7 @@
 confirmed ones to /verif/seeded/<PROP>-<x>/ (patch.diff, demo.rs, README.md from the author, meta.json)."""
 import subprocess, sys, os, json, shutil
 prop = sys.argv[1]; also = sys.argv[2:]
-for x in ["a", "b", "c", "d", "e", "f", "g", "h", "i", "j", "k", "m", "n", "p", "q"]:
+for x in ["a", "b", "c", "d", "e", "f", "g", "h", "i", "j", "k", "m", "n", "p", "q", "r", "s"]:
     src = f"/tmp/seed-{prop}/seed/{x}"
     if not os.path.exists(f"{src}/patch.diff") or os.path.exists(f"/verif/seeded/{prop}-{x}/meta.json"):
         continue
